@@ -30,11 +30,15 @@ def main():
     for p in progs:
         if p["prog"]:
             cases.append({"prog": p["prog"], "k": p["k"], "order": 0, "base_last": True, "cases": p["cases"], "agree": p["agree"]})
+    # ... and evaluated before it is extended: base rule, evaluate, add the branches, evaluate twice (the last evaluation is judged)
+    for p in progs[::2]:
+        if p["prog"]:
+            cases.append({"prog": p["prog"], "k": p["k"], "order": 0, "grow": True, "cases": p["cases"], "agree": p["agree"]})
     results = replay("ruletree", cases)
     ctx.replayed = len(cases)
     meets = 0
     for c, r in zip(cases, results):
-        key = [shape(c["prog"]), c["order"]] + (["two_steps"] if c.get("base_last") else [])
+        key = [shape(c["prog"]), c["order"]] + (["two_steps"] if c.get("base_last") else []) + (["grown_after_evaluation"] if c.get("grow") else [])
         nb = shape(c["prog"]).count("ref") + shape(c["prog"]).count("alt") + shape(c["prog"]).count("next")
         ctx.case(key, nb >= 2, sample={"program": shape(c["prog"]), "order": c["order"], "observed": r.get("res")})
         if r.get("error"):
@@ -56,14 +60,18 @@ def main():
         if not diff_ref:
             meets += 1
             continue
-        info = {"program": shape(c["prog"]), "prog": c["prog"], "order": c["order"], "written_in_two_steps": bool(c.get("base_last")),
+        info = {"program": shape(c["prog"]), "prog": c["prog"], "order": c["order"], "written_in_two_steps": bool(c.get("base_last")), "extended_after_an_evaluation": bool(c.get("grow")),
                 "differs_from_reference": diff_ref[:6]}
         # fallback attribution (signature + mismatch kind): with a next_rule in the tree the Next selector's
         # left_evaluated / right_evaluated flags survive from the previous binding, so a binding may ADDITIONALLY show the
         # conclusion of a branch that did not fire for it (which bindings depends on the enumeration order; the per-element
         # model does not carry that state). Only extra conclusions on top of the as-implemented prediction are attributed.
         extra_only = ("next" in shape(c["prog"]) and all(set(d["as_implemented_model"]) < set(d["observed"]) for d in diff_impl))
-        if not diff_impl:
+        if c.get("grow") and len(c["prog"]) >= 2 and diff_impl:
+            # signature (finding F35): the rule was evaluated before it was extended and the later block holds several sibling branches
+            info["match"] = "signature(extended after an evaluation, two or more top-level branches in the later block)"
+            ctx.known_finding("C08-F35", info)
+        elif not diff_impl:
             ctx.known_finding("C08-F13", info)
         elif extra_only:
             info["match"] = "signature(next_rule in the tree, only extra conclusions on top of the as-implemented prediction)"
@@ -71,6 +79,21 @@ def main():
         else:
             info["differs_from_as_implemented_model"] = diff_impl[:6]
             ctx.violation(info, note="conclusions differ from the rule-tree semantics and from the recorded as-implemented behaviour")
+    # a refinement whose condition introduces a variable of its own (RuleNewVar.tla)
+    nv = [j for j in ctx.run_tlc("RuleNewVar", "RuleNewVar_gen.cfg", expect="ok").json_lines() if isinstance(j, dict) and "xa" in j]
+    if len(nv) != 108:
+        raise MachineryError(f"RuleNewVar_gen: expected 108 worlds, got {len(nv)}")
+    for c, r in zip(nv, replay("ruletree", nv)):
+        ctx.replayed += 1
+        exp = sorted([t[0], t[1], t[2]] for t in c["exp"])
+        key = ["refinement introducing a variable", c["xa"], c["ya"]]
+        ctx.case(key, any(t[0] == "T1" for t in exp), sample={"world": key, "expected": exp, "observed": r["newvar"]})
+        for o in r["newvar"]:
+            if isinstance(o, str) or sorted(map(list, {tuple(t) for t in o})) != exp:
+                ctx.violation({"world": key, "expected_instances": exp, "observed_per_domain_order": r["newvar"]},
+                              note="a refinement whose condition binds a variable of its own: the inferred instances are not one per "
+                                   "triggering binding, built from that binding's values")
+                break
     # the coverage index the selectors use for "already concluded for this binding" (SeenSet.tla)
     ctx.run_tlc("SeenSet", "SeenSet_mc.cfg", expect="ok")
     ctx.run_tlc("SeenSet", "SeenSet_mc_nokeys.cfg", expect="ok")
